@@ -107,7 +107,7 @@ def rounding_occurrences(t, nf, limit=20000):
 
 
 def const_value(x):
-    """exact value of a constant float term (literal, converted integer literal, negated constant)"""
+    """exact value of a constant float expression (literals, converted integer literals, and arithmetic on them)"""
     if x[0] == 'fc':
         return f64_bits_to_fraction(x[1])
     if x[0] == 'i2f' and x[1][0] == 'ic':
@@ -115,12 +115,37 @@ def const_value(x):
     if x[0] == 'fneg':
         c = const_value(x[1])
         return None if c is None else -c
+    if x[0] in ('f+', 'f-', 'f*', 'f/'):
+        a, b = const_value(x[1]), const_value(x[2])
+        if a is None or b is None or (x[0] == 'f/' and b == 0):
+            return None
+        r = {'f+': a + b, 'f-': a - b, 'f*': a * b}.get(x[0]) if x[0] != 'f/' else a / b
+        # only when the operation is exact (the result is a binary64 number): 2.0 + 1.0, 6.0 * 4.0
+        return r if _representable(r) else None
     return None
 
 
+def _representable(fr):
+    try:
+        return Fraction(float(fr)) == fr
+    except OverflowError:
+        return False
+
+
+def is_rounded_literal(x):
+    """a literal that stands for a rational it cannot represent (0.1, a compile-time 1.0/6.0): carries one rounding"""
+    from ..terms import real_reading
+    if x[0] != 'fc':
+        return False
+    fr = f64_bits_to_fraction(x[1])
+    return fr is not None and real_reading(fr) != fr
+
+
 def is_exact_op(x):
-    """operations that never round: ×/÷ by ±2^k (in particular by 1), ± a literal zero"""
+    """operations that never round: ×/÷ by ±2^k (in particular by 1), ± a literal zero, exact arithmetic on constants"""
     h = x[0]
+    if h in ('f+', 'f-', 'f*', 'f/') and const_value(x) is not None:
+        return True
     if h == 'f*':
         a, b = const_value(x[1]), const_value(x[2])
         return (a is not None and _is_pow2(a)) or (b is not None and _is_pow2(b))
@@ -146,6 +171,8 @@ def count_rounded_ops(t):
             if not is_exact_op(x):
                 n += 1
         elif x[0] == 'fcall':
+            n += 1
+        elif x[0] == 'fc' and is_rounded_literal(x):
             n += 1
     return n
 
